@@ -494,3 +494,7 @@ def targets(eng):
         "_async_set_connection_state_while_locked", "_async_set_connection_state_without_lock", "_async_log_connection_error", "_cancel_connect_timer",
         "_cancel_connect_task", "_cancel_connect", "_start_zc_listen", "_stop_zc_listen", "_connect_from_zeroconf", "_remove_stop_task")})
     return [contract_target(c) for c in cs]
+
+
+# built-in mutants of the real source text for the thorough tier's self-check (each must be refuted by a named obligation)
+MUTANTS = [('auth-errors-count-as-ordinary', 'aioesphomeapi/reconnect_logic.py', '            self._tries = MAXIMUM_BACKOFF_TRIES', '            self._tries += 1')]
